@@ -57,20 +57,6 @@ def has_nul(tree):
     return f(tree)
 
 
-def lex_exempt(tree):
-    """parsed trees the character conditions [lex_hyps] of C17_roundtrip_through_tokenizer_partial are known not
-    to cover (Props/C17.v): a PI data starting with white space (the known finding)"""
-    def f(nodes):
-        for n in nodes:
-            if n[0] == "E":
-                if f(n[5]):
-                    return True
-            elif n[0] == "P" and n[2][:1] in (" ", "\t", "\n"):
-                return True
-        return False
-    return f(tree)
-
-
 def run(ck):
     if ck.replay:
         rp = json.load(open(ck.replay))
@@ -94,7 +80,7 @@ def run(ck):
 
     stats = {"cases": len(cases), "roundtrip_ok": 0, "roundtrip_fail": 0, "ser_chars": 0, "elements": 0,
              "prefixed_attrs": 0, "escaped_chars": 0, "denotation_compared": 0, "panics": 0, "consistent": 0,
-             "theorem_applies": 0, "shape_fails": 0, "lex_applies": 0, "lex_exempt": 0}
+             "theorem_applies": 0, "shape_fails": 0, "lex_applies": 0}
     nontrivial = 0
     bad_corr = 0
     for i, ((x, doc), o) in enumerate(zip(cases, impl)):
@@ -126,11 +112,6 @@ def run(ck):
             payload = {"kind": "failing-input", "xml": x, "doc": doc, "tree": sec["TREE"], "serialized": ser,
                        "reparsed": sec["TREE2"], "first_difference": repr(diff)}
             cls = "C17:roundtrip-mismatch"
-            if diff and diff[1] and diff[2] and diff[1][0] == "P" and diff[2][0] == "P" and diff[1][1] == diff[2][1] \
-                    and diff[1][2] != diff[2][2] and diff[1][2].lstrip(" \t\n") == diff[2][2]:
-                # the PI data of a parsed tree starts with white space (the PiAfter quirk: <?t? x?>); the serializer
-                # writes it after the one separating space and the re-parse skips all of it
-                cls = "C17:pi-data-leading-white-space-lost"
             ck.violation("re-parsing the serializer's output gives a different tree; first difference %r" % (diff,),
                          payload, case_class=cls)
         # ---- correspondence
@@ -170,12 +151,10 @@ def run(ck):
                 stats["shape_fails"] += 1
                 problems.append("model: a parsed tree with a root element does not satisfy rt_hyps")
             # tested only: a parsed tree of the round-trip shape satisfies the character conditions of
-            # C17_roundtrip_through_tokenizer_partial (outside the three documented exceptions)
+            # C17_roundtrip_through_tokenizer_partial (no exception)
             if fl.get("hyps") == "1":
                 if fl.get("lex") == "1":
                     stats["lex_applies"] += 1
-                elif lex_exempt(tree1):
-                    stats["lex_exempt"] += 1
                 else:
                     problems.append("model: a parsed tree satisfies rt_hyps but not lex_hyps")
         if problems:
@@ -205,6 +184,6 @@ def run(ck):
                  "here, by the item denotation correspondence",
                  "parsed trees satisfy the shape hypotheses of C17_roundtrip_partial, forest_cons and the character "
                  "conditions lex_hyps (tested on every generated tree: stats.theorem_applies, stats.shape_fails, "
-                 "stats.consistent, stats.lex_applies, stats.lex_exempt; not proved)"],
+                 "stats.consistent, stats.lex_applies; not proved)"],
         assumptions=["doctype public/system ids are outside the serializer API and excluded from the comparison",
                      "trees are those produced by the XML parser (RcDom): no adjacent and no empty text nodes"])
